@@ -171,7 +171,6 @@ Qed.
 Lemma skipped_all_ws s : forallb is_ws s = true -> skipped s = true.
 Proof. intros H. unfold skipped, strip. rewrite (lstrip_all_ws s H). reflexivity. Qed.
 
-Definition is_words (l : aline) : bool := match l with AWords _ _ _ _ => true | _ => false end.
 Lemma skipped_aline l : aline_ok l = true -> skipped (render_aline l) = negb (is_words l).
 Proof.
   destruct l as [lead text|ws|lead w1 more trail]; cbn [aline_ok render_aline is_words negb]; intros H.
